@@ -822,7 +822,12 @@ func ParseSnapName(name string) (PName, bool) {
 // every instance has merged the newest snapshot of every other instance.
 // It returns "" if the premise holds, else the reason.
 func (f *Fleet) Premise() string {
-	newest := f.NewestByInstance()
+	return f.PremiseWith(f.NewestByInstance())
+}
+
+// PremiseWith is Premise for a given choice of "newest snapshot per
+// instance" (e.g. the newest decodable ones when hostile blobs are around).
+func (f *Fleet) PremiseWith(newest map[string]string) string {
 	for _, n := range f.Nodes {
 		if !n.Running {
 			return "node " + n.Name + " not running"
@@ -867,19 +872,16 @@ func (f *Fleet) Premise() string {
 				if mt, ok := maxTS[dbi][k]; ok && mt >= v.TS {
 					continue
 				}
-				return fmt.Sprintf("node %s holds unpublished %s/%q %s", y.Name, dbi, k, v)
+				return fmt.Sprintf("node %s holds unpublished %s/%q %s (newest snapshots considered: %v)", y.Name, dbi, k, v, newest)
 			}
 		}
 	}
 	// Everything merged: every instance has merged the newest snapshot of
 	// every other instance.
-	for _, y := range f.Nodes {
-		name, ok := newest[y.Name]
-		if !ok {
-			continue
-		}
+	for _, yname := range sortedKeys(newest) {
+		name := newest[yname]
 		for _, x := range f.Nodes {
-			if x == y {
+			if x.Name == yname {
 				continue
 			}
 			found := false
